@@ -115,8 +115,8 @@ def run(ctx: Ctx):
     ctx.ob("C17-O1", "R18 SIBLING-AGREEMENT (policy)", bld, "plan built from an integral node LP checked against demands", gated(bld), "ungated: relies on the node LP being feasible (see O5) and integral; no failing input known on the repaired tree", node=bld.node, severity="note")
 
     # ---- O2
-    check_cg_loop(ctx, cs)
-    check_cg_loop(ctx, cu)
+    ctx.step(check_cg_loop, cs)
+    ctx.step(check_cg_loop, cu)
     # node LP flag
     cfg = cfg_of(nlp.node)
     gv = GuardView(cfg)
@@ -303,12 +303,12 @@ def run(ctx: Ctx):
     from .sat_common import _need
 
     sp_ = ctx.func("utils.pricing", "simplex_phase")
-    _need(ctx, "C17-O7", "R21 search discipline", sp_, "entering column: the first non-basic structural column with a negative reduced cost (Bland); none -> the phase is over", ["enter = -1\n        for j in range(n_orig):\n            if j not in basis_set and tab[-1][j] < -eps:\n                enter = j\n                break", "if enter == -1:\n            return"])
-    _need(ctx, "C17-O7", "R30 ACCUMULATOR-PAIRING", sp_, "leaving row: minimum ratio rhs / entry over the rows with a positive entry, ties broken by the smaller basic index; no such row -> stop", ["leave = -1\n        min_ratio = float('inf')", "if tab[i][enter] > eps:\n                ratio = tab[i][-1] / tab[i][enter]\n                if ratio < min_ratio - eps:\n                    min_ratio = ratio\n                    leave = i\n                elif abs(ratio - min_ratio) <= eps and leave >= 0 and (basis[i] < basis[leave]):\n                    leave = i", "if leave == -1:\n            return"])
-    _need(ctx, "C17-O7", "R16 PAIRED-EFFECTS", sp_, "pivot: the leaving row is scaled by the pivot element, every other row (objective row included) is cleared in the entering column, the basis label and the basis set move together", ["piv = tab[leave][enter]\n        for j in range(n_cols):\n            tab[leave][j] /= piv", "for i in range(n_rows + 1):\n            if i != leave:\n                factor = tab[i][enter]\n                if abs(factor) > eps:\n                    for j in range(n_cols):\n                        tab[i][j] -= factor * tab[leave][j]", "basis_set.discard(basis[leave])\n        basis[leave] = enter\n        basis_set.add(enter)"])
+    ctx.step(_need, "C17-O7", "R21 search discipline", sp_, "entering column: the first non-basic structural column with a negative reduced cost (Bland); none -> the phase is over", ["enter = -1\n        for j in range(n_orig):\n            if j not in basis_set and tab[-1][j] < -eps:\n                enter = j\n                break", "if enter == -1:\n            return"])
+    ctx.step(_need, "C17-O7", "R30 ACCUMULATOR-PAIRING", sp_, "leaving row: minimum ratio rhs / entry over the rows with a positive entry, ties broken by the smaller basic index; no such row -> stop", ["leave = -1\n        min_ratio = float('inf')", "if tab[i][enter] > eps:\n                ratio = tab[i][-1] / tab[i][enter]\n                if ratio < min_ratio - eps:\n                    min_ratio = ratio\n                    leave = i\n                elif abs(ratio - min_ratio) <= eps and leave >= 0 and (basis[i] < basis[leave]):\n                    leave = i", "if leave == -1:\n            return"])
+    ctx.step(_need, "C17-O7", "R16 PAIRED-EFFECTS", sp_, "pivot: the leaving row is scaled by the pivot element, every other row (objective row included) is cleared in the entering column, the basis label and the basis set move together", ["piv = tab[leave][enter]\n        for j in range(n_cols):\n            tab[leave][j] /= piv", "for i in range(n_rows + 1):\n            if i != leave:\n                factor = tab[i][enter]\n                if abs(factor) > eps:\n                    for j in range(n_cols):\n                        tab[i][j] -= factor * tab[leave][j]", "basis_set.discard(basis[leave])\n        basis[leave] = enter\n        basis_set.add(enter)"])
     kpf = ctx.func("utils.pricing", "knapsack_pricing")
-    _need(ctx, "C17-O7", "R30 ACCUMULATOR-PAIRING", kpf, "pricing DP: a state is extended only from a reachable state, on strict improvement, and value and pattern are updated together (one more copy of item i)", ["dp_val[0] = 0.0", "prev_w = w - size_i\n                if dp_val[prev_w] > -float('inf'):\n                    new_val = dp_val[prev_w] + values[i]\n                    if new_val > dp_val[w] + eps:\n                        dp_val[w] = new_val\n                        dp_pat[w] = list(dp_pat[prev_w])\n                        dp_pat[w][i] += 1", "for _ in range(max_copies[i]):\n            for w in range(cap_int, size_i - 1, -1):"])
-    _need(ctx, "C17-O7", "R30 ACCUMULATOR-PAIRING", kpf, "the best state over all weights is returned with its own pattern", ["for w in range(cap_int + 1):\n        if dp_val[w] > best_val + eps:\n            best_val = dp_val[w]\n            best_w = w", "best_w = 0\n    best_val = 0.0", "best_pat = dp_pat[best_w] if best_val > eps else [0] * n", "return (tuple(best_pat), best_val)"])
+    ctx.step(_need, "C17-O7", "R30 ACCUMULATOR-PAIRING", kpf, "pricing DP: a state is extended only from a reachable state, on strict improvement, and value and pattern are updated together (one more copy of item i)", ["dp_val[0] = 0.0", "prev_w = w - size_i\n                if dp_val[prev_w] > -float('inf'):\n                    new_val = dp_val[prev_w] + values[i]\n                    if new_val > dp_val[w] + eps:\n                        dp_val[w] = new_val\n                        dp_pat[w] = list(dp_pat[prev_w])\n                        dp_pat[w][i] += 1", "for _ in range(max_copies[i]):\n            for w in range(cap_int, size_i - 1, -1):"])
+    ctx.step(_need, "C17-O7", "R30 ACCUMULATOR-PAIRING", kpf, "the best state over all weights is returned with its own pattern", ["for w in range(cap_int + 1):\n        if dp_val[w] > best_val + eps:\n            best_val = dp_val[w]\n            best_w = w", "best_w = 0\n    best_val = 0.0", "best_pat = dp_pat[best_w] if best_val > eps else [0] * n", "return (tuple(best_pat), best_val)"])
     # an item is left out of the pricing DP only when its dual value is not positive: every other skip under-reports the
     # best pattern value, column generation stops early and the unproven master LP value is used as a bound
     kcfg = cfg_of(kpf.node)
@@ -328,11 +328,11 @@ def run(ctx: Ctx):
         item_level = at - {atom_of("dp_val[prev_w] > -float('inf')"), atom_of("new_val > dp_val[w] + eps")}
         ctx.ob("C17-O7", "R12 NO-CARDINALITY-CUTOFF", kpf, "every item with a positive value takes part in the pricing DP", item_level <= {atom_of("values[i] > eps")}, f"items are also skipped under {sorted(item_level - {atom_of('values[i] > eps')})}: the DP then under-reports the best pattern value, pricing finds 'no improving column' too early and a non-minimal plan is labelled OPTIMAL", node=x)
     mfr = ctx.func("bp", "_most_fractional")
-    _need(ctx, "C17-O7", "R18 table", mfr, "branching variable: the positive entry farthest from an integer; none -> the point is integral", ["if x > eps:\n            frac = abs(x - round(x))\n            if frac > eps and frac > best_frac:\n                best_idx, best_frac = (i, frac)", "if best_idx is not None:\n        return (best_idx, x_vals[best_idx])\n    return (None, None)"])
-    _need(ctx, "C17-O7", "R16 PAIRED-EFFECTS", bnp, "branching creates two children that together cover the node: x <= floor(v) and x >= ceil(v) on the same column, each with the node's own bounds and the node's LP value as bound", ["left_bounds = list(node.column_bounds)\n        left_bounds.append((frac_idx, 0.0, floor(val)))\n        heappush(tree, (lp_obj, counter, _BPNode(lp_obj, tuple(left_bounds), node.depth + 1)))\n        counter += 1", "right_bounds = list(node.column_bounds)\n        right_bounds.append((frac_idx, ceil(val), float('inf')))\n        heappush(tree, (lp_obj, counter, _BPNode(lp_obj, tuple(right_bounds), node.depth + 1)))\n        counter += 1"])
-    _need(ctx, "C17-O7", "R1 STATUS-GUARD", bnp, "a node is skipped only when its bound cannot beat the incumbent; an integral node LP replaces the incumbent only when it is strictly better", ["if node.bound >= best_obj - eps:\n            continue", "if lp_obj == float('inf') or lp_obj >= best_obj - eps:\n            continue", "if obj < best_obj - eps:\n                best_solution = candidate\n                best_obj = obj"])
+    ctx.step(_need, "C17-O7", "R18 table", mfr, "branching variable: the positive entry farthest from an integer; none -> the point is integral", ["if x > eps:\n            frac = abs(x - round(x))\n            if frac > eps and frac > best_frac:\n                best_idx, best_frac = (i, frac)", "if best_idx is not None:\n        return (best_idx, x_vals[best_idx])\n    return (None, None)"])
+    ctx.step(_need, "C17-O7", "R16 PAIRED-EFFECTS", bnp, "branching creates two children that together cover the node: x <= floor(v) and x >= ceil(v) on the same column, each with the node's own bounds and the node's LP value as bound", ["left_bounds = list(node.column_bounds)\n        left_bounds.append((frac_idx, 0.0, floor(val)))\n        heappush(tree, (lp_obj, counter, _BPNode(lp_obj, tuple(left_bounds), node.depth + 1)))\n        counter += 1", "right_bounds = list(node.column_bounds)\n        right_bounds.append((frac_idx, ceil(val), float('inf')))\n        heappush(tree, (lp_obj, counter, _BPNode(lp_obj, tuple(right_bounds), node.depth + 1)))\n        counter += 1"])
+    ctx.step(_need, "C17-O7", "R1 STATUS-GUARD", bnp, "a node is skipped only when its bound cannot beat the incumbent; an integral node LP replaces the incumbent only when it is strictly better", ["if node.bound >= best_obj - eps:\n            continue", "if lp_obj == float('inf') or lp_obj >= best_obj - eps:\n            continue", "if obj < best_obj - eps:\n                best_solution = candidate\n                best_obj = obj"])
     nlp_ = ctx.func("bp", "_solve_node_lp")
-    _need(ctx, "C17-O7", "R16 PAIRED-EFFECTS", nlp_, "a priced column joins the column list and the column set together, and the master is solved again before the node's value is reported", ["columns.append(new_col)\n        column_set.add(new_col)", "x_vals, duals, lp_obj = _solve_bounded_master_lp(columns, demands, col_bounds, eps)\n    return (x_vals, lp_obj, cg_iters, converged)"])
+    ctx.step(_need, "C17-O7", "R16 PAIRED-EFFECTS", nlp_, "a priced column joins the column list and the column set together, and the master is solved again before the node's value is reported", ["columns.append(new_col)\n        column_set.add(new_col)", "x_vals, duals, lp_obj = _solve_bounded_master_lp(columns, demands, col_bounds, eps)\n    return (x_vals, lp_obj, cg_iters, converged)"])
     generic_sweeps(ctx)
 
 
